@@ -241,9 +241,9 @@ def check_speed_mismatch(case, rec):
 
 
 SUBS = [
-    Sub("roc", lambda tier: gen.with_carrier(roc_case(tier)), check_roc, quick=4000, thorough=80000),
+    Sub("roc", lambda tier: gen.with_carrier(roc_case(tier)), check_roc, quick=8000, thorough=80000),
     Sub("roc_mismatch", roc_mismatch_case, check_roc_mismatch, quick=400, thorough=5000, quick_shards=1),
-    Sub("speed", lambda tier: gen.with_carrier(speed_case(tier)), check_speed, quick=2500, thorough=40000),
+    Sub("speed", lambda tier: gen.with_carrier(speed_case(tier)), check_speed, quick=5000, thorough=40000),
     Sub("speed_mismatch", speed_mismatch_case, check_speed_mismatch, quick=300, thorough=3000, quick_shards=1),
 ]
 REQUIRED_CLASSES = ["roc:rate_on_threshold", "roc:irregular", "speed:speed_on_threshold", "speed:latlon_swap_matters",
